@@ -6,7 +6,7 @@ use crate::util::tree;
 use serde_json::json;
 use std::path::{Path, PathBuf};
 
-const INPUTS: [&str; 50] = [
+const INPUTS: [&str; 52] = [
     "module a; endmodule\n",
     "module a; /* c */ wire w; // d\nendmodule\n",
     "// only a comment\n",
@@ -57,6 +57,8 @@ const INPUTS: [&str; 50] = [
     "`include \"{INC}\"\r\nmodule a; endmodule\r\n",
     "\u{feff}module a; endmodule\n",
     "module a; string s = \"x\\\r\ny\"; endmodule\r\n",
+    "module a;\n`include \"{BADUTF}\"\nendmodule\n",
+    "`include \"{DIR}\"\nmodule a; endmodule\n",
 ];
 
 fn pp_sig(r: &PpResult) -> String {
@@ -103,7 +105,9 @@ fn one(acc: &mut Acc, input: usize, cfg: u64) {
     std::fs::write(Path::new(&d1).join(&inc), "`define FROM_INC 1\nwire from_d1; // c1\n").ok();
     std::fs::write(Path::new(&d2).join(&inc), "`define FROM_INC 2\nwire from_d2; /* c2 */\n").ok();
     std::fs::write(Path::new(&d2).join(&inc2), format!("`include \"{}\"\nwire nested;\n", inc)).ok();
-    let src = INPUTS[input].replace("{INC}", &inc).replace("{INC2}", &inc2).replace("{MISSING}", &format!("{}_missing.svh", tag));
+    let badutf = format!("{}_latin1.svh", tag);
+    std::fs::write(&badutf, b"wire caf\xe9;\n").ok();
+    let src = INPUTS[input].replace("{BADUTF}", &badutf).replace("{DIR}", &d1).replace("{INC}", &inc).replace("{INC2}", &inc2).replace("{MISSING}", &format!("{}_missing.svh", tag));
     let file = format!("{}_top.sv", tag);
     std::fs::write(&file, &src).ok();
     let path = Path::new(&file);
@@ -166,6 +170,62 @@ fn one(acc: &mut Acc, input: usize, cfg: u64) {
     cleanup(&[&file]);
 }
 
+/// top-level files that cannot be read as text: every file-based route must report the same error
+fn unreadable(acc: &mut Acc, kind: usize, cfg: u64) {
+    let tag = std::thread::current().name().unwrap_or("m").to_string();
+    let ignore = cfg & 1 != 0;
+    let incomplete = cfg & 2 != 0;
+    let strip = cfg & 4 != 0;
+    let file = format!("{}_unreadable", tag);
+    let _ = std::fs::remove_file(&file);
+    let _ = std::fs::remove_dir(&file);
+    let what = match kind {
+        0 => "a path that does not exist",
+        1 => {
+            std::fs::write(&file, b"module a; // caf\xe9\nendmodule\n").ok();
+            "a file holding a byte sequence that is not UTF-8"
+        }
+        2 => {
+            std::fs::write(&file, b"library l \xff.v;\n").ok();
+            "a library map holding a byte that is not UTF-8"
+        }
+        _ => {
+            let _ = std::fs::create_dir_all(&file);
+            "a directory"
+        }
+    };
+    let path = Path::new(&file);
+    let defs = api::mk_defs(&[]);
+    let incs: Vec<PathBuf> = vec![];
+    acc.nontrivial += 1;
+    acc.traces += 1;
+    acc.transitions += 5;
+    let pp = pp_sig(&api::pp_file(path, &defs, &incs, strip, ignore));
+    let results: Vec<(&str, String)> = vec![
+        ("preprocess(path)", pp.clone()),
+        ("parse_sv(path)", parse_sig(&api::parse_sv_file(path, &defs, &incs, ignore, incomplete))),
+        ("preprocess + parse_sv_pp", parse_sig(&two_step(api::pp_file(path, &defs, &incs, false, ignore), false, incomplete))),
+        ("parse_lib(path)", parse_sig(&api::parse_lib_file(path, &defs, &incs, ignore, incomplete))),
+        ("preprocess + parse_lib_pp", parse_sig(&two_step(api::pp_file(path, &defs, &incs, false, ignore), true, incomplete))),
+    ];
+    let case = json!({"top_file": what, "ignore_include": ignore, "allow_incomplete": incomplete, "strip_comments": strip});
+    if !pp.starts_with("ERR") {
+        acc.class("violation");
+        acc.violation(None, case.clone(), format!("preprocess of {} does not fail: {}", what, crate::util::api::clip(&pp, 200)));
+    }
+    for k in 1..results.len() {
+        if results[k].1 != results[0].1 {
+            acc.class("violation");
+            acc.violation(None, case.clone(), format!("top file is {}: {} reports {}, {} reports {}", what, results[0].0, results[0].1, results[k].0, results[k].1));
+            break;
+        }
+    }
+    acc.class("unreadable-agree");
+    acc.sample(|| json!({"top_file": what, "result": results[0].1}));
+    let _ = std::fs::remove_file(&file);
+    let _ = std::fs::remove_dir(&file);
+}
+
 fn cleanup(files: &[&str]) {
     for f in files {
         let _ = std::fs::remove_file(f);
@@ -174,13 +234,14 @@ fn cleanup(files: &[&str]) {
 
 pub fn build(tier: Tier) -> Check<'static> {
     let mut c = Check::new("C20", tier, "6/C20");
-    c.rule = "50 inputs (comments, CRLF / CR line ends, a byte-order mark, includes whose copies differ per include path, nested and repeated includes, macros, conditionals, junk tails, preprocess and parse errors, missing include, library-map inputs, non-ASCII) x ignore_include x allow_incomplete x strip_comments x 3 define tables x 4 include-path lists, each written to a real file: preprocess vs preprocess_str for the flag pair, and (strip off) the four routes to a tree; compared on text, origin of every byte / leaf, define table with origins, error; non-trivial = every configuration, distinct by construction".into();
+    c.rule = "52 inputs (comments, CRLF / CR line ends, a byte-order mark, includes whose copies differ per include path, nested and repeated includes, macros, conditionals, junk tails, preprocess and parse errors, missing include, an included file that is not UTF-8, an included directory, library-map inputs, non-ASCII) x ignore_include x allow_incomplete x strip_comments x 3 define tables x 4 include-path lists, each written to a real file: preprocess vs preprocess_str for the flag pair, and (strip off) the four routes to a tree; plus top files that cannot be read (missing, not UTF-8, a directory) through the five file-based routes; compared on text, origin of every byte / leaf, define table with origins, error; non-trivial = every configuration, distinct by construction".into();
     c.assumptions = vec!["the process changes its working directory to /verif/.work/C20/cwd; file names are unique per worker thread".into()];
     let cwd = crate::core::run::verif_dir().join(".work").join("C20").join("cwd");
     let _ = std::fs::create_dir_all(&cwd);
     std::env::set_current_dir(&cwd).expect("chdir");
     let n_cfg = 8 * 3 * 4;
     let _ = tier;
+    c.parts.push(Part::new("unreadable-top-files", 4 * 8, "top file missing / not UTF-8 (source, library map) / a directory x ignore_include x allow_incomplete x strip_comments: the five file-based routes report one and the same error", move |i, acc| unreadable(acc, (i / 8) as usize, i % 8)));
     c.parts.push(Part::new("configurations", (INPUTS.len() as u64) * n_cfg, "input x flags x defines x include paths", move |i, acc| one(acc, (i / n_cfg) as usize, i % n_cfg)));
     c
 }
